@@ -15,10 +15,10 @@ class PTN(object):
     @classmethod
     def parse(cls, text):
         head, tail = text.split("\n\n", 1)
-        tags_ = re.findall(r'^\[(\w+) "([^"]+)"\]$', head, re.M)
+        tags_ = re.findall(r'^\[(\w+) "([^"]*)"\]$', head, re.M)
         tags = dict(tags_)
 
-        tail = re.sub(r"{[^}]+}", " ", tail)
+        tail = re.sub(r"{[^}]*}", " ", tail)
 
         moves = []
         tokens = re.split(r"\s+", tail)
@@ -95,6 +95,9 @@ def parse_move(move):
 
     if pickup and not slides:
         slides = (int(pickup),)
+
+    if slides and sum(slides) > 8:
+        raise BadMove(move, "cannot move more than 8 stones")
 
     if pickup and int(pickup) != sum(slides):
         raise BadMove(
